@@ -59,6 +59,7 @@ var (
 	c20Mu     sync.Mutex
 	c20Calls  []c20Call
 	c20Reply  func(path string) string
+	c20Status int // != 0: the handler reports this status (Response.Error) before it ends the response
 	c20WSEcho int // number of messages the ws handler echoes before it waits for close
 	c20WSGot  [][]byte
 	c20WSPush [][]byte // messages the server pushes first
@@ -175,7 +176,11 @@ func c20RegisterHandlers(srv *http.Server) {
 				}
 				c20Calls = append(c20Calls, c20Call{Path: p, Method: r.GetMethod(), Body: r.GetBody(), Headers: hs})
 				reply := c20Reply(p)
+				status := c20Status
 				c20Mu.Unlock()
+				if status != 0 {
+					w.Error(status)
+				}
 				w.End(reply)
 			})
 		}
@@ -320,9 +325,15 @@ func (c *c20World) doHTTP(q c20Req, idx int) *c20Fail {
 	case 6:
 		wantReply = "{\"status\": \"ok\", \"path\": \"" + q.Path + "\"}" // ": " inside a body is not a header
 	}
+	wantStatus := "200 OK"
 	c20Mu.Lock()
 	c20Calls = nil
 	c20Reply = func(p string) string { return wantReply }
+	c20Status = 0
+	if idx%7 == 2 { // the handler answers with a status of its own
+		c20Status = 404
+		wantStatus = "404 Not Found"
+	}
 	c20Mu.Unlock()
 	c.tcpPayload = nil
 	var result string
@@ -395,12 +406,16 @@ func (c *c20World) doHTTP(q c20Req, idx int) *c20Fail {
 	if result != wantReply {
 		return &c20Fail{"http-result", name + fmt.Sprintf(": client result is %q, the handler produced %q", clipS(result), wantReply)}
 	}
-	if !bytes.HasPrefix(c.tcpPayload, []byte("HTTP/1.1 200 OK\r\n")) {
+	if !bytes.HasPrefix(c.tcpPayload, []byte("HTTP/1.1 "+wantStatus+"\r\n")) {
 		l := c.tcpPayload
 		if len(l) > 40 {
 			l = l[:40]
 		}
-		return &c20Fail{"http-status-line", name + fmt.Sprintf(": status line on the wire is %q, the handler finished normally (200 OK)", l)}
+		key := "http-status-line"
+		if wantStatus != "200 OK" {
+			key = "http-handler-status-lost"
+		}
+		return &c20Fail{key, name + fmt.Sprintf(": status line on the wire is %q, the handler produced %s", l, wantStatus)}
 	}
 	return nil
 }
